@@ -174,6 +174,51 @@ func paramTypeAtCursor(call *hclsyntax.FunctionCallExpr, funcs map[string]m.Func
 	return cty.NilType, false
 }
 
+// objectItemAtCursor descends through object constructors to the item whose value holds the
+// cursor and returns that attribute's constraint and value expression. unconstrained is set
+// when the cursor is in the value of an item whose key is no literal name.
+func objectItemAtCursor(cons m.ConsM, expr hclsyntax.Expression, off int) (m.ConsM, hclsyntax.Expression, bool) {
+	for depth := 0; depth < 6; depth++ {
+		oc, ok := expr.(*hclsyntax.ObjectConsExpr)
+		if !ok {
+			return cons, expr, false
+		}
+		attrs := map[string]m.ConsM{}
+		switch {
+		case cons.K == "object":
+			for n, a := range cons.Attrs {
+				attrs[n] = a.Cons
+			}
+		case (cons.K == "any" || cons.K == "littype") && cons.Ty != "" && cons.Ty.Cty().IsObjectType():
+			for n, t := range cons.Ty.Cty().AttributeTypes() {
+				attrs[n] = m.ConsM{K: cons.K, Ty: m.TyOf(t)}
+			}
+		default:
+			return cons, expr, false
+		}
+		var hit *hclsyntax.ObjectConsItem
+		for i := range oc.Items {
+			vr := oc.Items[i].ValueExpr.Range()
+			if vr.Start.Byte <= off && off <= vr.End.Byte {
+				hit = &oc.Items[i]
+			}
+		}
+		if hit == nil {
+			return cons, expr, false
+		}
+		name, raw := refmodel.RawObjectKey(*hit)
+		if !raw {
+			return cons, hit.ValueExpr, true
+		}
+		sub, known := attrs[name]
+		if !known {
+			return cons, expr, false
+		}
+		cons, expr = sub, hit.ValueExpr
+	}
+	return cons, expr, false
+}
+
 func checkC08(c C08Case) Result {
 	var r Result
 	w, pi := SafeBuild(func() *world.World { return world.Build(c.World) })
@@ -236,15 +281,24 @@ func checkC08(c C08Case) Result {
 			cands := res.Val.(lang.Candidates)
 			r.Evals++
 			// the expectation is only known when the value is a plain traversal / empty
+			// inside an object constructor the attribute under the cursor decides: descend to the
+			// item whose value holds the cursor; an item whose key is no literal name has no
+			// constraint at all
+			valCons, valExpr, unconstrained := objectItemAtCursor(as.Cons, a.Expr, off)
+			if unconstrained {
+				r.Class("cursor-in-value-of-non-literal-key")
+			}
 			exp := expectedAt{}
 			inCallArg := false
-			switch e := a.Expr.(type) {
+			switch e := valExpr.(type) {
 			case *hclsyntax.ScopeTraversalExpr, *hclsyntax.LiteralValueExpr, *hclsyntax.ExprSyntaxError:
-				exp = expectationFor(as.Cons)
+				if !unconstrained {
+					exp = expectationFor(valCons)
+				}
 			case *hclsyntax.FunctionCallExpr:
 				// inside the parentheses of a call of a known function the parameter of the
 				// argument slot holding the cursor decides what fits
-				if pt, ok := paramTypeAtCursor(e, p.Funcs, text, off, as.Cons); ok {
+				if pt, ok := paramTypeAtCursor(e, p.Funcs, text, off, valCons); ok && !unconstrained {
 					exp = expectedAt{known: true, types: []cty.Type{pt}}
 					inCallArg = true
 					r.Class("cursor-in-call-argument")
@@ -257,6 +311,10 @@ func checkC08(c C08Case) Result {
 					continue // malformed edits are C06's business
 				}
 				typed := text[rg.Start.Byte:off]
+				if unconstrained && (cd.Kind == lang.ReferenceCandidateKind || cd.Kind == lang.FunctionCandidateKind || cd.Kind == lang.BoolCandidateKind) {
+					r.Fail("c08:candidate-for-unconstrained-item", "%s candidate %d %q (%s) offered inside the value of an object item whose key is no literal name: no attribute, hence no constraint, applies there\n%s", cl, i, cd.Label, cd.Kind, clip(text, 900))
+					continue
+				}
 				switch cd.Kind {
 				case lang.ReferenceCandidateKind:
 					refCands++
@@ -306,7 +364,7 @@ func checkC08(c C08Case) Result {
 							}
 						}
 						if !ok {
-							r.Fail("c08:ref-does-not-fit", "%s candidate %d %q: neither the declaration nor anything nested below it satisfies the expected scope/type of %q (%s)\n%s", cl, i, cd.Label, a.Name, describeCons(as.Cons), clip(text, 900))
+							r.Fail("c08:ref-does-not-fit", "%s candidate %d %q: neither the declaration nor anything nested below it satisfies the expected scope/type of %q (%s)\n%s", cl, i, cd.Label, a.Name, describeCons(valCons), clip(text, 900))
 						}
 						// ---- round trip: a declaration that itself fits resolves back
 						var fit *reference.Target
@@ -367,7 +425,7 @@ func checkC08(c C08Case) Result {
 							}
 						}
 						if !ok {
-							r.Fail("c08:func-return-type", "%s candidate %d %q returns %s which does not convert to the expected type of %q (%s)", cl, i, cd.Label, fn.Ret.Cty().FriendlyName(), a.Name, describeCons(as.Cons))
+							r.Fail("c08:func-return-type", "%s candidate %d %q returns %s which does not convert to the expected type of %q (%s)", cl, i, cd.Label, fn.Ret.Cty().FriendlyName(), a.Name, describeCons(valCons))
 						}
 					}
 				case lang.BoolCandidateKind:
@@ -378,7 +436,7 @@ func checkC08(c C08Case) Result {
 						if inCallArg {
 							cs = []m.ConsM{{K: "any", Ty: m.TyOf(exp.types[0])}}
 						} else {
-							flattenCons(as.Cons, &cs)
+							flattenCons(valCons, &cs)
 						}
 						for _, x := range cs {
 							if (x.K == "any" || x.K == "littype") && (x.Ty.Cty() == cty.Bool || x.Ty.Cty() == cty.DynamicPseudoType) {
@@ -389,7 +447,7 @@ func checkC08(c C08Case) Result {
 							}
 						}
 						if !admits {
-							r.Fail("c08:bool-not-admitted", "%s candidate %d %q offered although the constraint of %q (%s) admits no boolean", cl, i, cd.Label, a.Name, describeCons(as.Cons))
+							r.Fail("c08:bool-not-admitted", "%s candidate %d %q offered although the constraint of %q (%s) admits no boolean", cl, i, cd.Label, a.Name, describeCons(valCons))
 						}
 					}
 				}
